@@ -257,7 +257,7 @@ def run(ctx: Ctx):
     judge_histories(ctx, s, [seq_case(m) for m in muts])
     s.finish()
     s = Stream(ctx, "misspelt / too-deep module names (also level-limited graphs)")
-    name_cases(ctx, ctx.rng("names"), ctx.size(4000, 60000), s)
+    name_cases(ctx, ctx.rng("names"), ctx.size(4000, 200000), s)
     regex_batch_cases(ctx, ctx.rng("regex-batches"), ctx.size(1500, 20000), s)
     s.finish()
     from . import c13_more
